@@ -363,3 +363,12 @@ def markers(ctx):
     for q, s in sets.items():
         if s != ref:
             ctx.violate(q, 'hardened-marker alphabet is %s, the other path parsers and the documentation use %s' % (''.join(sorted(s)), ''.join(sorted(ref))), ctx.repo.func(q))
+
+
+@PROP.obligation('C03.cache-keys')
+def cache_keys(ctx):
+    """Memoisation (BIP32 derivation results): every container that a function both looks up and stores into is found (none exists on the reference tree; a
+    fixture self-test keeps the detector honest) and the key that is looked up must carry every parameter - and for containers shared
+    between objects every attribute of self - that the cached value depends on through data or control flow."""
+    from .common_cache import cache_keys as run
+    run(ctx, [('keys', lambda q: q.startswith('HDKey.'))], 'HDKey methods')
